@@ -45,7 +45,7 @@ func main() {
 	seed := flag.Int64("seed", 1, "random seed (all randomness derives from it)")
 	n := flag.Int("n", 1000, "number of grammars")
 	k := flag.Int("k", 3, "layouts per grammar")
-	pigeon := flag.String("pigeon", "/verif/build/bin/pigeon-verif", "pigeon binary built with -tags verif")
+	pigeon := flag.String("pigeon", "/verif/build/bin/pigeon", "pigeon binary built with -tags verif")
 	includeKnown := flag.Bool("include-known", false, "lift the known-defect avoidance")
 	lift := flag.String("lift", "", "lift single avoidances: comma-separated list of "+strings.Join(pvpeg.AvoidNames(), ","))
 	out := flag.String("out", "/tmp/pvt.pvfront.out", "directory for failing inputs")
